@@ -179,6 +179,20 @@ func (s *Script) Match(data any) bool {
 	return 0 < len(stack)
 }
 
+// matchWithRoot is Match with a root ($) that is not the data itself. It is
+// used when the script is the last fragment of a path being modified.
+func (s *Script) matchWithRoot(data, root any) bool {
+	stack := []any{}
+	if node, ok := data.(gen.Node); ok {
+		ns, _ := s.evalWithRoot(stack, gen.Array{node}, root)
+		stack, _ = ns.([]any)
+	} else {
+		ns, _ := s.evalWithRoot(stack, []any{data}, root)
+		stack, _ = ns.([]any)
+	}
+	return 0 < len(stack)
+}
+
 // Eval is primarily used by the Expr parser but is public for testing.
 func (s *Script) Eval(stack, data any) any {
 	ns, _ := s.evalWithRoot(stack, data, nil)
